@@ -89,6 +89,9 @@ def impl(op: str) -> str:
             if r[1] is not None:
                 acc.append(e)
         return "ok " + (",".join(acc) if acc else "~")
+    if a[0] == "c18mulg":
+        pt = int(a[1]) * NETS["btc"].generator
+        return "ok %d %d" % (pt[0], pt[1])
     if a[0] == "c18number":
         v = NETS["btc"].parse.as_number(text_of(a[1]))
         return "ok None" if v is None else "ok %x" % v
@@ -394,6 +397,9 @@ def _gen(ctx, emit):
     for t in numeric + [" 0x1f ", "\u00a012", "1\u2000", "+ 1", "--1", "1_2_3", "0x1_f", "0xg", "x10", "١٢٣", "１２"]:
         if model_safe(t):
             emit("c18number %s" % th(t))
+    # the driver's fast scalar multiplication against the C02 curve model and the implementation
+    for se in [1, 2, 3, ORDER - 1, ORDER // 2, 2 ** 255 % ORDER] + [rng.randrange(1, ORDER) for _ in range(ctx.n(30, 300))]:
+        emit("c18mulg %d" % se)
     # the Electrum seed form (slow: 100 000 hash rounds) — a handful
     for t in ("E:00112233445566778899aabbccddeeff", "E:" + rb(16).hex()):
         for e in ("electrum_seed", "hierarchical_key", "call"):
